@@ -98,7 +98,7 @@ func H_sign() {
 	// producer 2: diff-time signing (shares one read of the source with the differ)
 	target := hlib.Walk(root + "/old")
 	var patch, sigBuf bytes.Buffer
-	dctx := &pwr.DiffContext{Compression: hlib.None(), Consumer: hlib.Consumer, SourceContainer: c,
+	dctx := &pwr.DiffContext{Compression: hlib.CodecParam(), Consumer: hlib.Consumer, SourceContainer: c,
 		Pool: &slicingPool{FsPool: fspool.New(c, root+"/new"), on: rt.Param("slicing") == 2}, TargetContainer: target, TargetSignature: hlib.Sign(root+"/old", target)}
 	hlib.Must(dctx.WritePatch(context.Background(), &patch, &sigBuf), "WritePatch")
 	src := seeksource.FromBytes(sigBuf.Bytes())
